@@ -12,10 +12,12 @@
    Gen/G_join.v) — e.g. `sorted=(axis == 0)`, `fill_value=arrays[0].fill_value`.
    "The result is again a sparse array" holds by typing: every model returns a `coo V`.
 
-   Not proved here (correspondence only, see tools/props/c09.py): gcxs_concat_den / gcxs_stack_den
-   (the dense meaning of the GCXS joiners, which hinges on change_compressed_axes, C05). *)
+   GCXS joiners: gcxs_concat_den / gcxs_stack_den are stated for members that are canonical GCXS arrays
+   (gcxs_from_coo c ca of a canonical COO c — what GCXS.from_coo and every C05 conversion produce) and use
+   property C05's theorems (Proofs/ConvertG.v, ConvertP.v) for change_compressed_axes; they include
+   gcxs_wfb of the result. *)
 From Coq Require Import ZArith List Bool.
-From Verif Require Import Py Shape COO COOP NpJoin S_join Join Extract JoinP ExtractP.
+From Verif Require Import Py Shape COO COOP GCXS Convert NpIndex CooIndex NpJoin S_join Join Extract JoinP ExtractP JoinG TakeG.
 Import ListNotations.
 Open Scope Z_scope.
 
@@ -155,8 +157,34 @@ Section C09.
     forall (x : coo V) (axis : Z),
       c_fill x <> vzero -> coo_diagonalize_src V veqb vzero vadd x axis = Raise ValueError.
   Proof. exact (diagonalize_src_nonzero_fill V veqb veqb_eq vzero vadd). Qed.
-  (* ------------------------------------------------------------ take (along one axis; indices in [-n, n))
-     the model is the RESULT of the getitem that take delegates to (C02), see Model/Extract.v *)
+  (* ------------------------------------------------------------ take on the REAL getitem path
+     coo_take_getitem = normalize_axis, then COO.__getitem__ (Model/CooIndex.v, property C02) on
+     (slice(None),) * axis + (indices, ...).  Proved from C02's coo_getitem_den /
+     coo_getitem_one_array_partial plus: NumPy's meaning of that index is np.take's (Proofs/TakeG.v).
+     kf is the getitem model's mask-strategy choice (any).  A 1-d input with an integer index gives a scalar. *)
+  Theorem take_int_getitem_den :
+    forall (kf : nat -> nat) (x : coo V) (i axis : Z) (k : nat),
+      cwf V x -> np_norm_axis axis (ndim_of V x) = Some k ->
+      - nth k (c_shape x) 0 <= i < nth k (c_shape x) 0 ->
+      match coo_take_getitem V kf x (IInt i) axis with
+      | Ok (GArr y) => take_result V y x (np_take_int k i (darr_of_coo x))
+      | Ok (GScalar v) => length (c_shape x) = 1%nat /\ v = den x [NpJoin.wrap (nth k (c_shape x) 0) i]
+      | Raise _ => False
+      end.
+  Proof. exact (take_int_getitem_proof V). Qed.
+
+  Theorem take_list_getitem_den :
+    forall (kf : nat -> nat) (x : coo V) (l : list Z) (axis : Z) (k : nat),
+      cwf V x -> np_norm_axis axis (ndim_of V x) = Some k ->
+      Forall (fun i => - nth k (c_shape x) 0 <= i < nth k (c_shape x) 0) l ->
+      match coo_take_getitem V kf x (IArr l) axis with
+      | Ok (GArr y) => take_result V y x (np_take_list k l (darr_of_coo x))
+      | _ => False
+      end.
+  Proof. exact (take_list_getitem_proof V). Qed.
+
+  (* ------------------------------------------------------------ take, result-level model (kept: the model
+     the correspondence compares coordinate by coordinate; same Spec) *)
   Theorem take_int_den :
     forall (x : coo V) (i axis : Z) (k : nat),
       cwf V x -> np_norm_axis axis (ndim_of V x) = Some k ->
@@ -173,6 +201,54 @@ Section C09.
         /\ extract_result V c x (np_take_list k indices (darr_of_coo x)).
   Proof. exact (take_list_correct V). Qed.
 End C09.
+
+(* ------------------------------------------------------------ GCXS joiners (all members GCXS, ndim >= 2) *)
+Section C09_gcxs.
+  Variable V : Type.
+  Variable veqb : V -> V -> bool.
+  Hypothesis veqb_eq : forall a b, veqb a b = true <-> a = b.
+  Variable vzero : V.
+  Variable vadd : V -> V -> V.
+
+  (* members (c_j, ca_j) stand for the GCXS arrays gcxs_from_coo c_j ca_j; `caxes` is the compressed_axes
+     argument (None = (axis,)); gjoin_result: gcxs_wfb g, shape, fill, compressed axes and dense meaning *)
+  Theorem gcxs_concat_den :
+    forall (a : coo V) (ca_a : list Z) (r : list (coo V * list Z)) (axis : Z) (k : nat) (caxes : option (list Z)),
+      let n := Z.of_nat (length (c_shape a)) in
+      (2 <= length (c_shape a))%nat ->
+      np_norm_axis axis (ndim_of V a) = Some k ->
+      Forall (cwf V) (a :: map fst r) ->
+      Forall (fun x => same_off k (c_shape a) (c_shape x)) (map fst r) ->
+      Forall (fun x => c_fill x = c_fill a) (map fst r) ->
+      Forall (fun p => caxes_okb n (snd p) = true) ((a, ca_a) :: r) ->
+      caxes_okb n (final_axes caxes k) = true ->
+      exists g,
+        gcxs_concatenate_src V veqb vzero axis caxes
+          (map (fun p => gcxs_from_coo (fst p) (snd p)) ((a, ca_a) :: r)) = Ok g
+        /\ gjoin_result V g a (final_axes caxes k)
+             (np_concatenate k (darr_of_coo a) (map darr_of_coo (map fst r))).
+  Proof. exact (gcxs_concat_correct V veqb veqb_eq vzero). Qed.
+
+  (* stack: `arrays[i].reshape(shape with a 1 at axis).change_compressed_axes((axis,))` is modelled by its
+     meaning (the member's COO with a 0 coordinate inserted, compressed along the new axis); the reshape
+     kernel itself is compared by correspondence only *)
+  Theorem gcxs_stack_den :
+    forall (a : coo V) (ca_a : list Z) (r : list (coo V * list Z)) (axis : Z) (k : nat) (caxes : option (list Z)),
+      let n := Z.of_nat (length (c_shape a)) in
+      (2 <= length (c_shape a))%nat ->
+      np_norm_axis axis (ndim_of V a + 1) = Some k ->
+      Forall (cwf V) (a :: map fst r) ->
+      Forall (fun x => c_shape x = c_shape a) (map fst r) ->
+      Forall (fun x => c_fill x = c_fill a) (map fst r) ->
+      Forall (fun p => caxes_okb n (snd p) = true) ((a, ca_a) :: r) ->
+      caxes_okb (n + 1) (final_axes caxes k) = true ->
+      exists g,
+        gcxs_stack_src V veqb vzero vadd axis caxes
+          (map (fun p => gcxs_from_coo (fst p) (snd p)) ((a, ca_a) :: r)) = Ok g
+        /\ gjoin_result V g a (final_axes caxes k)
+             (np_stack k (darr_of_coo a) (map darr_of_coo (map fst r))).
+  Proof. exact (gcxs_stack_correct V veqb veqb_eq vzero vadd). Qed.
+End C09_gcxs.
 
 (* ------------------------------------------------------------ GCXS joiners: the indptr splice *)
 (* the suffix-add loop  `for i in 1..n-1: indptr[ptr_len:] += nnz_{i-1}; ptr_len += len(indptr_i) - 1`
@@ -225,8 +301,12 @@ Print Assumptions diagonal_nonsquare_rejected.
 Print Assumptions diagonal_same_axis_rejected.
 Print Assumptions diagonalize_den.
 Print Assumptions diagonalize_nonzero_fill_rejected.
+Print Assumptions take_int_getitem_den.
+Print Assumptions take_list_getitem_den.
 Print Assumptions take_int_den.
 Print Assumptions take_list_den.
+Print Assumptions gcxs_concat_den.
+Print Assumptions gcxs_stack_den.
 Print Assumptions indptr_splice_spec.
 Print Assumptions indptr_splice_wf.
 Print Assumptions indptr_needed_bounds.
